@@ -83,7 +83,9 @@ func init() {
 
 // names a binding may take: fresh names, column names, built-in constants,
 // function and table names.
-var bindNames = []string{"p", "q", "v", "w", "n", "lim", "ia", "sa", "ba", "ib", "true", "null", "count", "T", "U", "fi", "r", "g", "k"}
+var bindNames = []string{"p", "q", "v", "w", "n", "lim", "ia", "sa", "ba", "ib", "true", "null", "count", "T", "U", "fi", "r", "g", "k",
+	// every class of first character an identifier may have, and odd continuations
+	"$p", "_p", "P", "Zq", "$", "_", "p_1", "$9x", "__subquery0"}
 
 func generate(w *mon.W) {
 	rng := gen.RNG(w.Seed, "c06")
@@ -349,6 +351,11 @@ func Check(c *Case, r *mon.R) {
 		break
 	}
 	p2 := map[string]string{"zz8": "$9"}
+	// the number of unused parameters varies (small maps and large ones may be handled differently)
+	sizes := []int{0, 0, 1, 6, 7, 8, 9, 15, 16, 17, 31, 32, 33, 39, 40, 41, 63, 64, 65, 127, 128, 129, 300}
+	for i, n := 0, sizes[rng.Intn(len(sizes))]; i < n; i++ {
+		p2[fmt.Sprintf("zu%d", i)] = fmt.Sprintf("$%d", 100+i)
+	}
 	for k, v := range params {
 		p2[k] = v
 	}
